@@ -213,6 +213,8 @@ def call_builtin(m: Any, name: str, args: list[V], kwargs: dict[str, V], node: a
         return VHeapRef(m.ctx.alloc("iter", sv), "iter")
     if name == "next":
         it = args[0]
+        if isinstance(it, VSeq):  # a generator's output, consumed through a fresh iterator
+            it = VHeapRef(m.ctx.alloc("iter", it), "iter")
         if not (isinstance(it, VHeapRef) and m.ctx.cell(it.addr).kind == "iter"):
             raise EngineError("next() on a non-iterator")
         cell = m.ctx.cell(it.addr)
